@@ -20,7 +20,13 @@ CHECK = generic("C05", [dict(harness="heap", area="heap"), dict(harness="skiplis
                         dict(harness="heap", area="pqptr", name="heap-pqptr")], extra=deep_search, pregen=steps.pregen_pqgo)
 
 MANIFEST = dict(
-    text=("Theorems in Lean 4 (Ekit/Props/C05.lean) for ANY comparator that is a total preorder (ties allowed). "
+    text=("Props/C05PQ.lean: internal/queue/priority_queue.go is translated on every run (harness/minigopq) into a deep embedding whose interpreter has "
+          "Go's aliasing slices, the receiver, method calls and the translated slice.Shrink; the interpreter running the translation is proved to "
+          "simulate the heap model below call by call - constructor, Enqueue (sift-up loop), Dequeue (move last to root, Shrink, heapify loop writing "
+          "through the aliased slice), Peek, Len, Cap, IsBoundless (c05_pq_new_refines, c05_pq_step_refines) - and, for a lawful comparator and a "
+          "well-formed queue, never to panic, get stuck or run out of fuel (c05_pq_step_refines_wf); the translated program is run against the real "
+          "queue on every heap trace (area pqptr: results, Len, the whole heap array and the slice capacity). "
+          "Theorems in Lean 4 (Ekit/Props/C05.lean) for ANY comparator that is a total preorder (ties allowed). "
           "Priority queue (model = 1-based array with slot 0, append + the sift-up loop, move-last-to-root + slice.Shrink via "
           "calCapacity + the heapify loop, every index read partial): the heap invariant and the capacity bookkeeping are preserved "
           "by every call for every runtime growth choice; every history is accepted by the bag-with-capacity specification "
